@@ -168,7 +168,8 @@ def holds(node, col, kind, op, lit, tz="UTC", root_spelling="."):
             return not like_match(lit, s)
         if op in ("rx", "notrx"):
             try:
-                r = re.search(lit, s) is not None
+                # Rust's `$` is end of text only (Python's also matches before a final newline)
+                r = re.search(re.sub(r"(?<!\\)\$", r"\\Z", lit), s) is not None
             except re.error:
                 return None
             return r if op == "rx" else not r
